@@ -972,8 +972,8 @@ impl GenProfile {
             w_put: 46, w_update: 12, w_delete: 10, w_commit: 8, w_reopen: 5, w_crash: 3, w_readonly: 1, w_batch: 3,
             w_skip: 2, w_finalize: 2, w_vacuum: 2, w_doctor: 1, w_ticket: 1, emb_percent: 25, wrong_dim_percent: 4,
             triplets: false, instant_index_percent: 30, auto_tag: false, valid_target_percent: 85,
-            n_short: if thorough { 400 } else { 36 }, short_len: (12, 60),
-            n_long: if thorough { 30 } else { 4 }, long_len: (if thorough { 250 } else { 110 }, if thorough { 400 } else { 170 }),
+            n_short: if thorough { 400 } else { 22 }, short_len: (10, 48),
+            n_long: if thorough { 30 } else { 3 }, long_len: (if thorough { 250 } else { 100 }, if thorough { 400 } else { 150 }),
             corpus: vec![],
         }
     }
